@@ -1224,6 +1224,14 @@ impl<'ctx> ByteCompiler<'ctx> {
         // `flatten()` strips outer parentheses so that conditions like
         // `(a < b)` (common in ternaries and hand-parenthesized code) still
         // reach the fused comparison+branch path.
+        #[cfg(boa_verif)]
+        if crate::verif::no_fusion() {
+            let value = self.register_allocator.alloc();
+            self.compile_expr(condition, &value);
+            let label = self.jump_if_false(&value);
+            self.register_allocator.dealloc(value);
+            return label;
+        }
         if let Expression::Binary(binary) = condition.flatten()
             && let BinaryOp::Relational(op) = binary.op()
             && let Some(label) = self.try_fused_comparison_branch(op, binary, hoisted)
@@ -1247,6 +1255,10 @@ impl<'ctx> ByteCompiler<'ctx> {
         &mut self,
         condition: Option<&Expression>,
     ) -> Option<HoistedOperand> {
+        #[cfg(boa_verif)]
+        if crate::verif::no_hoist() {
+            return None;
+        }
         let condition = condition?;
         let Expression::Binary(binary) = condition else {
             return None;
@@ -2268,6 +2280,11 @@ impl<'ctx> ByteCompiler<'ctx> {
                                     &binding_kind,
                                     &value,
                                 );
+                                #[cfg(boa_verif)]
+                                if crate::verif::no_const_cache() {
+                                    self.register_allocator.dealloc(value);
+                                    continue;
+                                }
                                 // Cache non-local const bindings in a persistent register
                                 // so subsequent reads avoid GetName environment lookups.
                                 let cache_reg = self.register_allocator.alloc_persistent();
